@@ -65,7 +65,9 @@ Inductive vrel : value -> value -> Prop :=
 | vr_map t n kvs1 kvs2 : treg t = false -> tsv t = false ->
     Forall2 (fun a b => fst a = fst b /\ leafish (fst a) = true /\ vrel (snd a) (snd b)) kvs1 kvs2 -> vrel (VMap t n kvs1) (VMap t n kvs2)
 | vr_iface_nil tn : vrel (VIface tn None) (VIface tn None)
-| vr_iface tn a b : vrel a b -> vrel (VIface tn (Some a)) (VIface tn (Some b)).
+| vr_iface tn a b : vrel a b -> vrel (VIface tn (Some a)) (VIface tn (Some b))
+| vr_ptr_nil t u : treg t = false -> tsv t = false -> vrel (VPtr t u None) (VPtr t u None)
+| vr_ptr t u a b : treg t = false -> tsv t = false -> vrel a b -> vrel (VPtr t u (Some a)) (VPtr t u (Some b)).
 
 Lemma vrel_leaf_inv v1 v2 : vrel v1 v2 -> leafish v1 = true -> lrel v1 v2.
 Proof. intros H L. inversion H; subst; try discriminate. assumption. Qed.
@@ -76,7 +78,7 @@ Proof. intros H. inversion H; subst; try reflexivity. destruct H0 as (-> & -> & 
 Definition vshape (v : value) : bool :=
   match v with
   | VNil | VBool _ _ | VInt _ _ | VUint _ _ | VFloat _ _ _ | VStr _ _
-  | VSlice _ _ _ | VArray _ _ | VStruct _ _ | VMap _ _ _ | VIface _ _ => true
+  | VSlice _ _ _ | VArray _ _ | VStruct _ _ | VMap _ _ _ | VIface _ _ | VPtr _ _ _ => true
   | _ => false
   end.
 Lemma vrel_shape v1 v2 : vrel v1 v2 -> vshape v1 = true /\ vshape v2 = true.
@@ -793,6 +795,28 @@ Section Rec.
   Lemma kovr_sepSp : kovr (f <- getf ;; if sharpV (fl f) then wstr ", " else wbyte 32).
   Proof. apply kovr_bind; [apply kovr_getf | intros f]. destruct (sharpV (fl f)); [apply kovr_wstr | apply kovr_wbyte]. Qed.
 
+  (* a pointer: only its address (shared) and type are printed *)
+  Lemma JfmtPointer_ptr t u e1 e2 verb : J any (fmtPointer rec env (VPtr t u e1) verb) (fmtPointer rec env (VPtr t u e2) verb).
+  Proof.
+    cbn [fmtPointer].
+    assert (forall l, J any (fmt0x64 u l) (fmt0x64 u l)) as H0x
+      by (intros l; eapply JS_weaken; [|apply (Jfmt0x64 u u l); now left]; intros ? ? _ _; reflexivity).
+    destruct (verb =? 118).
+    { eapply J_bind; [apply J_getf | intros f ? <-]. destruct (sharpV (fl f)).
+      - eapply (J_bind any any); [apply J_wbyte | intros _ _ _]. eapply (J_bind any any); [apply J_w1 | intros _ _ _].
+        eapply (J_bind any any); [apply J_wstr | intros _ _ _].
+        eapply (J_bind any any); [destruct (u =? 0); [apply J_wstr | apply H0x] | intros _ _ _; apply J_wbyte].
+      - destruct (u =? 0); [|apply H0x].
+        eapply JS_weaken; [|apply (ubody_wr_rel (fun f0 => pad f0 (bs "<nil>")) (fun f0 => pad f0 (bs "<nil>")))];
+          [intros; intro; reflexivity | intros f0; apply usegw_refl]. }
+    destruct (verb =? 112); [eapply J_bind; [apply J_getf | intros f ? <-; apply H0x]|].
+    destruct (isv verb "bodxX"); [|apply J_badverb_call].
+    eapply JS_weaken; [|apply (JfmtInteger u u false verb); [now left | intros (? & ? & ?); lia]]. intros ? ? _ _. reflexivity.
+  Qed.
+
+  Lemma vrel_composite a b : vrel a b -> elem_kind_composite a = elem_kind_composite b.
+  Proof. intros H. inversion H; subst; try reflexivity. destruct H0 as (L1 & L2 & _). destruct a, b; try discriminate; reflexivity. Qed.
+
   Ltac seqk := eapply JS_bind_k; [ | | intros _ _ _].
 
   Lemma Jprint_kind fuel v1 v2 verb depth ci : vrel v1 v2 ->
@@ -837,6 +861,12 @@ Section Rec.
          eapply JS_weaken; [|apply (Hrec (CPrintValue a verb (S depth) ci) (CPrintValue b verb (S depth) ci)); exact (conj eq_refl (conj eq_refl (conj eq_refl H)))];
          intros ? ? Hx Ho; destruct (Hx Ho) as [Ex Lx]; injection Ex as <-; cbn [cP];
          split; [reflexivity|]; unfold lfs in Lx; cbn [leafish orb] in Lx; now apply lfs_leaf).
+    - (* nil pointer *) apply Hcont; [reflexivity|]. apply J_JS. destruct fuel; cbn [print_kind]; destruct depth; apply JfmtPointer_ptr.
+    - (* pointer *) apply Hcont; [reflexivity|]. pose proof (vrel_composite _ _ H1) as Ec.
+      destruct fuel; cbn [print_kind]; (destruct depth; [|apply J_JS, JfmtPointer_ptr]); rewrite <- Ec;
+        (destruct (negb (u =? 0) && elem_kind_composite a); [|apply J_JS, JfmtPointer_ptr]);
+        (eapply JS_bind_k; [apply J_JS, J_wbyte | apply kovr_wbyte | intros _ _ _];
+         eapply JS_bind; [apply Jelem; assumption | intros; now apply J_ret]).
   Qed.
 
   (* ---------- printValue at depth 0, printArg ---------- *)
@@ -933,7 +963,8 @@ Section Rec.
     destruct (verb =? 84); [apply J_JS; eapply J_bind; [apply J_getf | intros f ? <-; apply J_wr]|].
     destruct (verb =? 112).
     { apply J_JS. inversion Hv; subst; try discriminate;
-        try (match goal with Hx : lrel _ _ |- _ => destruct Hx as (Lx & _); congruence end); cbn [fmtPointer];
+        try (match goal with Hx : lrel _ _ |- _ => destruct Hx as (Lx & _); congruence end);
+        try (apply JfmtPointer_ptr); cbn [fmtPointer];
         try (apply J_badverb_call); intros ? ? _ _ _; exact Logic.I. }
     eapply JS_bind_k; [| apply Hkrec |].
     - eapply JS_weaken; [|apply (Hrec (CHandleMethods verb) (CHandleMethods verb)); reflexivity]. intros ? ? _ _. exact Logic.I.
